@@ -256,6 +256,10 @@ func Write(resp *protocol.Response, w network.Writer) error {
 	bodyLen := len(body)
 	if sendBody || bodyLen > 0 {
 		resp.Header.SetContentLength(bodyLen)
+	} else if resp.Header.ContentLength() == -2 {
+		// no body is sent and nothing is known about its length: the head says nothing about
+		// framing ("identity" is the header's marker for that, not a transfer coding)
+		resp.Header.Del(consts.HeaderTransferEncoding)
 	}
 
 	header := resp.Header.Header()
